@@ -427,6 +427,7 @@ def host_pattern_categories(ctx, modules=("vm", "context", "values", "lexer")) -
                 continue
             cats: Set[str] = set()
             ascii_flag = any("ASCII" in norm(a) or norm(a).endswith("re.A") for a in list(n.args[1:]) + [k.value for k in n.keywords])
+            multiline = any("MULTILINE" in norm(a) or norm(a).endswith("re.M") for a in list(n.args[1:]) + [k.value for k in n.keywords])
 
             def visit(items):
                 for op, av in items:
@@ -443,6 +444,8 @@ def host_pattern_categories(ctx, modules=("vm", "context", "values", "lexer")) -
                             cats.add("word")
                     elif name == "AT" and "BOUNDARY" in str(av):
                         cats.add("word")
+                    elif name == "AT" and str(av) in ("AT_END", "AT_END_LINE") and not multiline:
+                        cats.add("dollar")
                     elif name in ("SUBPATTERN",):
                         visit(av[3])
                     elif name in ("MAX_REPEAT", "MIN_REPEAT", "POSSESSIVE_REPEAT"):
@@ -510,7 +513,9 @@ def rule_script_whitespace(ctx, rep, rid: str, only=None, pattern_modules: Tuple
     for m, call, text, cats in host_pattern_categories(ctx, modules=pattern_modules):
         n_sites += 1
         key = f"{m.name}:pattern:{short(call.args[0], 30)}"
-        if text is None:
+        if only is not None and not any(only(q) for q in pattern_users(ctx, m, call)):
+            rep.ok(rid, key, {"note": "serves other built-ins: judged under their property"})
+        elif text is None:
             rep.ok(rid, key, {"note": "pattern text not constant: not judged"})
         elif "space" in cats:
             rep.bad(rid, key, f"the host pattern {short(call, 50)} in {m.rel} uses \\s: the host's white-space class lacks U+FEFF and contains U+001C..U+001F and U+0085, unlike ECMAScript's WhiteSpace and LineTerminator (so '\\ufeff3.5' and '\\u00853.5' are read differently from what ToNumber and parseInt do)", f"{m.rel}:{call.lineno}")
@@ -986,3 +991,63 @@ def rule_nan_position_means_end(ctx, rep, rid: str) -> None:
             rep.bad(rid, key, f"{where}: the position of lastIndexOf is converted like every other position, so one that is not a number (NaN, 'x', an object) becomes 0 and the search runs backwards from the start; {NAN_MEANS_END[f.name]} - 'abcabc'.lastIndexOf('c', NaN) is 5, not -1 (missing position: {defaults[0]}; under a NaN test: {yields or 'nothing'})", f.loc)
     if n == 0:
         raise AnalysisError(f"{rid}: String lastIndexOf native not found")
+
+
+# ---- `$` in a host pattern is not the end of the text ----------------------------------------------------------
+def rule_host_pattern_end_anchor(ctx, rep, rid: str, modules: Tuple[str, ...] = ("vm", "context", "values", "lexer"), only=None) -> None:
+    """Without re.MULTILINE the host's `$` matches at the end of the text AND just before a line feed that ends it, so a
+    pattern used to decide "the whole text is of this form" accepts one trailing line feed that it never looked at.
+    `\\Z` is the end of the text."""
+    rep.rule(rid, "a host pattern that the engine applies to script text anchors its end with \\Z, not with `$`: the host's `$` also matches before a trailing line feed, so 'x\\n' passes a pattern that was meant to admit only 'x' (a whole-text grammar, a nothing-to-escape fast path)", floor=1)
+    _control_pattern_categories()
+    ctl = ast.parse("import re\nP = re.compile('[a-z]*$')\n")
+
+    class _M:
+        name = "values"
+        tree = ctl
+
+    got = host_pattern_categories(type("C", (), {"tree": type("T", (), {"modules": [_M]})}), modules=("values",))
+    if len(got) != 1 or "dollar" not in got[0][3]:
+        raise AnalysisError(f"{rid}: positive control failed")
+    n = 0
+    for m, call, text, cats in host_pattern_categories(ctx, modules=modules):
+        n += 1
+        key = f"{m.name}:pattern:{short(call.args[0], 30)}:end-anchor"
+        if only is not None and not any(only(q) for q in pattern_users(ctx, m, call)):
+            rep.ok(rid, key, {"note": "serves other built-ins: judged under their property"})
+            continue
+        if text is None:
+            rep.ok(rid, key, {"note": "pattern text not constant: not judged"})
+        elif "dollar" in cats:
+            rep.bad(rid, key, f"the host pattern {short(call, 50)} in {m.rel} ends with `$`: in the host that also matches just before a final line feed, so text with one trailing '\\n' is accepted although the pattern never admitted that character (the module's other patterns use \\Z)", f"{m.rel}:{call.lineno}")
+        else:
+            rep.ok(rid, key)
+    if n == 0:
+        raise AnalysisError(f"{rid}: no host pattern found in {modules}")
+
+
+def pattern_users(ctx, m, call: ast.Call, depth: int = 3) -> Set[str]:
+    """Qualified names of the functions that use the compiled pattern `NAME = re.compile(..)` (by name), and of the
+    functions that call those, up to `depth` levels: which built-ins a module-level pattern serves."""
+    par = getattr(call, "_parent", None)
+    name = par.targets[0].id if isinstance(par, ast.Assign) and len(par.targets) == 1 and isinstance(par.targets[0], ast.Name) else None
+    out: Set[str] = set()
+    if name is None:
+        from ..core import enclosing_func
+
+        f = enclosing_func(call)
+        return {f.qual} if f is not None else set()
+    frontier = [f for f in ctx.tree.funcs if not isinstance(f.node, ast.Lambda) and any(isinstance(x, ast.Name) and x.id == name and isinstance(x.ctx, ast.Load) for x in f.own_nodes()) and (f.module is m or name in f.module.imports)]
+    seen = set()
+    for _ in range(depth + 1):
+        nxt = []
+        for f in frontier:
+            if id(f) in seen:
+                continue
+            seen.add(id(f))
+            out.add(f.qual)
+            for cs in ctx.cg.sites:
+                if any(t is f for t in cs.targets):
+                    nxt.append(cs.func)
+        frontier = nxt
+    return out
